@@ -180,3 +180,50 @@ func c17ScanLines(s string) []string {
 	}
 	return out
 }
+
+// VerifC17fTwoBatches: an unknown host is decided by the user (yes / all / no),
+// and some seconds later - a reconnect, a server slower than the others, more
+// servers than the connection throttle lets through at once - a second unknown
+// host turns up: it is trusted only if the user said "all" the first time or
+// approves it now; "yes" the first time covers the first batch only.
+func VerifC17fTwoBatches() {
+	dlog.VerifInstall(source.Client)
+	c := c17New(false)
+	firsts := []string{"yes\n", "y\n", "all\n", "a\n", "no\n", "n\n"}
+	seconds := []string{"no\n", "yes\n", "n\n"}
+	f := verifrt.Choose("first-answer", len(firsts))
+	s := verifrt.Choose("second-answer", len(seconds))
+	memfs.Stdin = []byte(firsts[f] + seconds[s])
+	cb := c.Wrap()
+	ctx, cancel := context.WithCancel(context.Background())
+	go c.PromptAddHosts(ctx)
+	c17Verdict["alpha:2222"] = 1
+	c17Verdict["beta:2222"] = 1 + verifrt.Choose("second-host-unknown-or-changed", 2)
+	ask := func(host string, id byte) (err error, decided bool) {
+		done := make(chan struct{})
+		go func() {
+			err = cb(host, c17Addr("10.0.0."+string(rune(id))+":2222"), c17Key{id})
+			close(done)
+		}()
+		select {
+		case <-done:
+			return err, true
+		case <-time.After(30 * time.Second):
+			return nil, false
+		}
+	}
+	e1, ok1 := ask("alpha:2222", '1')
+	verifrt.Assert(ok1, "a host key decision never completed")
+	verifrt.Assert((e1 == nil) == (f <= 3), "the first host is accepted exactly if the user approved it")
+	verifrt.Sleep(5 * time.Second)
+	e2, ok2 := ask("beta:2222", '2')
+	verifrt.Assert(ok2, "a host key decision never completed")
+	all := f == 2 || f == 3
+	want := all || s == 1
+	if e2 == nil && !want {
+		verifrt.Assert(false, "a host the user did not approve is trusted because an earlier host was approved with yes")
+	}
+	verifrt.Assert((e2 == nil) == want, "the second host is accepted exactly if the user said all before or approves it now")
+	cancel()
+	verifrt.Reach("two-batches")
+}
